@@ -25,7 +25,8 @@ MEAS_HEADERS = {"mv": ("DEFCAL MEASURE v addr:", {}), "mf": ("DEFCAL MEASURE {q}
 MEAS_BODIES = {"cap-addr": (['CAPTURE v "ro" ' + WF + " addr[0]"], {}),
                "cap-other": (['CAPTURE v "ro" ' + WF + " other[0]"], {}),
                "loadmem": (['PRAGMA LOAD-MEMORY v "addr"'], {}),
-               "fence": (["FENCE v"], {})}
+               "fence": (["FENCE v"], {}),
+               "x": (["{h} v"], {"h": ("str", G2)})}          # a gate inside a measure calibration: cycles that alternate between the two kinds
 BODY = [Tpl("g", "{g} {q}", g=("str", G2), q=("int", Q)), Tpl("gp", "{g}(2.0) {q}", g=("str", G2), q=("int", Q)),
         Tpl("m", "MEASURE {q} ro[1]", q=("int", Q)), Tpl("h", "H 1"), Tpl("g2", "{g} {q} {r}", g=("str", G2), q=("int", Q), r=("int", Q))]
 
